@@ -119,6 +119,8 @@ def _run(prop, tier, seed, only, known, stage, t0):
     def work(job):
         h, solver = job
         tmo = h.timeout if tier == "quick" else max(h.timeout, 1800)
+        if os.environ.get("VERIF_TIMEOUT"):   # probing aid
+            tmo = int(os.environ["VERIF_TIMEOUT"])
         mem = h.mem_gb if tier == "quick" else max(h.mem_gb, 12)
         budget.acquire(mem)
         try:
@@ -308,6 +310,8 @@ def _write_evidence(prop, tier, seed, results, discharged, total_checks, violati
     del ev["coverage"]["states"]
     os.makedirs(EVID_DIR, exist_ok=True)
     partial = ".partial" if os.environ.get("VERIF_ONLY") else ""
+    if os.environ.get("VERIF_EVIDENCE_TAG"):   # seeded-change runs must not overwrite the real evidence
+        partial = "." + os.environ["VERIF_EVIDENCE_TAG"] + ".partial"
     with open(os.path.join(EVID_DIR, prop.id + partial + ".json"), "w") as f:
         json.dump(ev, f, indent=1)
 
